@@ -1,1 +1,134 @@
-/-! C08 — property theorems (placeholder until the model exists). -/
+import EupsModel.Lemmas.FsEff
+/-! C08 — an interrupted update never corrupts or loses existing declarations.  Property theorems only
+(model: `Model/FsEff.lean`, helper lemmas: `Lemmas/FsEff.lean`).
+
+`effects cfg fs c` is the list of file-system effects of command `c` started in database state `fs`;
+`crashAt cfg fs c k` is the state a kill immediately before effect number `k` leaves behind; `read s r` is what a
+reader makes of record `r` in state `s` (absent / garbled = empty or truncated / its declared flavors / its
+flavor ↦ version assignments); `targets fs c` are the records the command may touch.  `cfg.atomic = true` is the
+tree with the D10 repair (records are written to a temporary file and renamed into place), `false` the pinned
+in-place writers. -/
+namespace EupsModel.C08
+open EupsModel.FsEff
+
+/-- **Frame** (core theorem).  Whatever the writers (repaired or pinned), whatever the state, the command and the
+crash point: every record the command does not target reads exactly as before. -/
+theorem C08_frame (cfg : Cfg) (fs : Fs) (c : Cmd) (k : Nat) (r : RPath) (h : r ∉ targets fs c) :
+    FsEff.read (crashAt cfg fs c k) r = FsEff.read fs r := by
+  unfold FsEff.read crashAt
+  congr 1
+  apply get_applyAll
+  intro e he hg
+  have he' : e ∈ effects cfg fs c := List.mem_of_mem_take he
+  obtain ⟨s, hs, r', hr', hgr⟩ := touched_expandAll cfg.atomic fs (steps fs c) e he' _ hg
+  rcases hgr with h1 | h1
+  · cases h1
+    exact h (steps_within fs c s hs r hr')
+  · cases h1
+
+/-- **Commit points.**  With the repaired writers, from a well-formed state, a kill at any point leaves every
+record as it is after some whole number of the command's record-level steps (`steps`: whole-record writes and
+removals as `Database`/`Eups` decide them) — the intermediate states of a writer are invisible. -/
+theorem C08_commit_points (fs : Fs) (hwf : WF fs) (c : Cmd) (k : Nat) :
+    ∃ j, j ≤ (steps fs c).length ∧
+      ∀ r, FsEff.read (crashAt { atomic := true } fs c k) r = FsEff.read (applySteps fs ((steps fs c).take j)) r := by
+  obtain ⟨j, hj, h⟩ := commit_points (steps fs c) fs hwf.noTmp k
+  exact ⟨j, hj, fun r => by unfold FsEff.read crashAt effects; rw [h r]⟩
+
+/-- **Old or new** (the clause "each record touched is seen either in its old or in its new form", partial).
+Hypothesis `retag fs c = false`: the command does not assign a tag that is already assigned for that product and
+flavor (the excluded class is the open finding D11, witness below).  With the repaired writers, from a well-formed
+state, for every command, crash point and record: the record reads as before the command or as after the
+completed command. -/
+theorem C08_record_atomic_partial (fs : Fs) (hwf : WF fs) (c : Cmd) (hnr : retag fs c = false) (k : Nat) (r : RPath) :
+    FsEff.read (crashAt { atomic := true } fs c k) r = FsEff.read fs r ∨
+    FsEff.read (crashAt { atomic := true } fs c k) r = FsEff.read (final { atomic := true } fs c) r := by
+  obtain ⟨j, _, h⟩ := commit_points (steps fs c) fs hwf.noTmp k
+  have hfin : final { atomic := true } fs c = applySteps fs (steps fs c) := expandAll_net _ fs hwf.noTmp
+  unfold FsEff.read
+  rw [hfin]
+  unfold crashAt effects
+  rw [h r]
+  exact steps_atomic fs hwf c hnr r j
+
+/-- **Never truncated or empty** (full, tag moves included): with the repaired writers, from a well-formed
+state, no crash point of any command lets a reader see an empty or half-written record. -/
+theorem C08_never_garbled (fs : Fs) (hwf : WF fs) (c : Cmd) (k : Nat) (r : RPath) :
+    FsEff.read (crashAt { atomic := true } fs c k) r ≠ .garbled := by
+  obtain ⟨j, _, h⟩ := commit_points (steps fs c) fs hwf.noTmp k
+  unfold FsEff.read crashAt effects
+  rw [h r]
+  exact not_garbled_applySteps _ fs (wf_not_garbled fs hwf) r
+
+/-- **The reader succeeds** (full): with the repaired writers, from a well-formed state, after a kill at any
+point of any command (tag moves included) every record file in the database directory is complete and of its kind
+— a leftover temporary file is not a record — so the listing of a fresh reader is defined for every flavor. -/
+theorem C08_reader_total (fs : Fs) (hwf : WF fs) (c : Cmd) (k : Nat) (f : Id) :
+    recordsComplete (crashAt { atomic := true } fs c k) = true ∧
+    (listing (crashAt { atomic := true } fs c k) f).isSome = true := by
+  have h := recordsComplete_of_mainGood _ (mainGood_crash fs hwf c k)
+  exact ⟨h, by simp [listing, h]⟩
+
+/-- The pinned writers do not have this property either: in the truncation witness the reader meets a record it
+cannot read in full. -/
+theorem C08_reader_total_pinned_witness :
+    let fs : Fs := { dirs := [0], files := [(.main (.vfile 0 0), .complete (.ver [⟨0, false⟩, ⟨1, false⟩]))] }
+    listing (crashAt { atomic := false } fs (.declare 0 0 0 none true) 1) 0 = none := by decide
+
+/-- Non-vacuity of the hypotheses: the two-flavor state of the truncation witness is well-formed and the forced
+redeclaration is not a re-tag (it has 19 effects); the state of the tag-move witness is well-formed too, and there
+`retag` is true. -/
+example :
+    let fs : Fs := { dirs := [0], files := [(.main (.vfile 0 0), .complete (.ver [⟨0, false⟩, ⟨1, false⟩]))] }
+    WF fs ∧ retag fs (.declare 0 0 0 none true) = false ∧ (effects {} fs (.declare 0 0 0 none true)).length = 19 := by
+  refine ⟨⟨?_, ?_, ?_⟩, by decide, by decide⟩
+  · intro x hx r; simp at hx; subst hx; simp
+  · decide
+  · intro x hx; simp at hx; subst hx; simp [RecOK]
+example :
+    retag { dirs := [0], files := [(.main (.vfile 0 0), .complete (.ver [⟨0, false⟩])),
+                                   (.main (.vfile 0 1), .complete (.ver [⟨0, false⟩])),
+                                   (.main (.cfile 0 0), .complete (.chain [⟨0, 0, false⟩]))] }
+      (.declare 0 1 0 (some 0) false) = true := by decide
+
+/-- The clause "each record touched is seen in its old or in its new form, never truncated or empty" is false of
+the pinned writers (D10, repaired): `pa/1.version` holds flavors 0 and 1; flavor 0 is redeclared; killed right
+after the truncate, the record is seen empty — flavor 1, which the command did not touch, is lost with it —
+although both the old and the new record declare flavors 0 and 1. -/
+theorem C08_truncation_witness :
+    let fs : Fs := { dirs := [0], files := [(.main (.vfile 0 0), .complete (.ver [⟨0, false⟩, ⟨1, false⟩]))] }
+    let c : Cmd := .declare 0 0 0 none true
+    (RPath.vfile 0 0) ∈ targets fs c ∧
+    FsEff.read (crashAt { atomic := false } fs c 1) (.vfile 0 0) = .garbled ∧
+    FsEff.read fs (.vfile 0 0) = .flavors [0, 1] ∧
+    FsEff.read (final { atomic := false } fs c) (.vfile 0 0) = .flavors [0, 1] := by decide
+
+/-- With the repaired writers the same command at the same crash point leaves the record as it was. -/
+theorem C08_truncation_repaired :
+    let fs : Fs := { dirs := [0], files := [(.main (.vfile 0 0), .complete (.ver [⟨0, false⟩, ⟨1, false⟩]))] }
+    let c : Cmd := .declare 0 0 0 none true
+    ∀ k, k ≤ (effects {} fs c).length → FsEff.read (crashAt {} fs c k) (.vfile 0 0) = .flavors [0, 1] := by decide
+
+/-- The same clause is false of a tag move even with the repaired writers (D11, open): `current` is assigned to
+`pa 1` and is moved to `pa 2`; the chain record is removed and then written again; killed in between, the tag is
+assigned to nothing — neither the old nor the new record. -/
+theorem C08_tagmove_gap_witness :
+    let fs : Fs := { dirs := [0], files := [(.main (.vfile 0 0), .complete (.ver [⟨0, false⟩])),
+                                             (.main (.vfile 0 1), .complete (.ver [⟨0, false⟩])),
+                                             (.main (.cfile 0 0), .complete (.chain [⟨0, 0, false⟩]))] }
+    let c : Cmd := .declare 0 1 0 (some 0) false
+    (RPath.cfile 0 0) ∈ targets fs c ∧
+    FsEff.read (crashAt {} fs c 1) (.cfile 0 0) = .absent ∧
+    FsEff.read fs (.cfile 0 0) = .assigns [(0, 0)] ∧
+    FsEff.read (final {} fs c) (.cfile 0 0) = .assigns [(0, 1)] := by decide
+
+/-! Non-vacuity of `C08_frame`: in the state of the tag-move witness the command has 9 effects and the version
+record `pa/1.version` is not among its targets. -/
+example :
+    let fs : Fs := { dirs := [0], files := [(.main (.vfile 0 0), .complete (.ver [⟨0, false⟩])),
+                                             (.main (.vfile 0 1), .complete (.ver [⟨0, false⟩])),
+                                             (.main (.cfile 0 0), .complete (.chain [⟨0, 0, false⟩]))] }
+    (effects {} fs (.declare 0 1 0 (some 0) false)).length = 9 ∧
+    RPath.vfile 0 0 ∉ targets fs (.declare 0 1 0 (some 0) false) := by decide
+
+end EupsModel.C08
